@@ -27,6 +27,8 @@ class NoCand(Exception):
 
 def pick_steps(rng):
     r = rng.random()
+    if r < 0.01:
+        return rng.randrange(600, 1500)      # a few very long histories (accumulation, thresholds)
     if r < 0.6:
         return rng.randrange(5, 40)
     if r < 0.9:
